@@ -16,16 +16,19 @@ RULE = (
     "{collapse, bandpass, read_chan(c) for every c, dedisperse(dm) for a DM set with delay tables from all-zero to maxdelay = "
     "nsamps-1, compute_stats, compute_stats_basic}); result compared exactly (integer-valued data) with numpy on "
     "X[start:start+nsamps]; all gulps of one sub-range compared bit-for-bit. Non-trivial = more than one block, or a proper "
-    "sub-range, or maxdelay > 0"
+    "sub-range, or maxdelay > 0. A scale lane repeats the comparison on one stream of ordinary size (70 001 samples x 32 channels in 5 member files, "
+    "gulps {16384, 4099, 65536, 70001, 7000}, 4 ranges, DMs up to maxdelay 3260 samples)"
 )
 ASSUMPTIONS = [
     "integer-valued labelled data: float32 sums are exact, so equality is bit-exact except for the moments (tolerance 50*eps32*n relative, +1e-3 absolute on skew/kurtosis)",
     "dedispersion delays are taken from the library's own Header.get_dmdelays (C09 checks that table) and counted from the earliest channel, so tables of either sign are covered (negative DMs included)",
     "a DM whose maxdelay >= nsamps is outside the quantifier and skipped",
 ]
-REQUIRED_OUTCOMES = ["collapse/ok", "bandpass/ok", "read_chan/ok", "dedisperse/ok", "dedisperse/gulp_lt_2maxdelay", "dedisperse/negative_delays", "stats/ok", "stats_basic/ok", "gulp_identity/ok"]
+REQUIRED_OUTCOMES = ["collapse/ok", "bandpass/ok", "read_chan/ok", "dedisperse/ok", "dedisperse/gulp_lt_2maxdelay", "dedisperse/negative_delays", "stats/ok", "stats_basic/ok", "gulp_identity/ok", "scale_lane/ok"]
 
 EPS32 = float(np.finfo(np.float32).eps)
+SCALE = {"N": 70001, "C": 32, "lengths": [16384, 1, 30000, 23615, 1], "band": [1500.0, -10.0], "dms": [0.0, 100.0, 3000.0, -100.0],
+         "gulps": [16384, 4099, 65536, 70001, 7000], "ranges": [[None, None], [12345, 50000], [65530, None], [1, 65537]]}
 DMS = [0.0, 1.0, 3.0, 8.0, 8.7, -3.0, -8.7, 14.0]
 
 
@@ -48,6 +51,13 @@ def shards(tier: str, seed: int) -> list:
             # split the sub-range starts over shards for parallelism
             for start in range(N):
                 out.append({"nbits": nbits, "nchans": C, "N": N, "lengths": lengths, "start": start, "dms": b["dms"]})
+    # scale lane: one stream of ordinary size (more than 2**16 samples, 32 channels, 5 member files) on a few gulps and ranges, so that
+    # code selected or broken only beyond toy sizes (index widths, float32 exactness, block-size thresholds) is exercised too
+    NS = SCALE["N"]
+    for nbits in ((8, 32, 2) if tier == "quick" else (8, 32, 4, 2, 1)):
+        for api_group in ("reduce", "dedisperse", "stats"):
+            out.append({"nbits": nbits, "nchans": SCALE["C"], "N": NS, "lengths": SCALE["lengths"], "start": 0, "dms": SCALE["dms"],
+                        "band": SCALE["band"], "scale": api_group, "gulps": SCALE["gulps"], "ranges": SCALE["ranges"]})
     return out
 
 
@@ -56,7 +66,11 @@ def _open(wd, shard, seed):
 
     nbits, C, N = shard["nbits"], shard["nchans"], shard["N"]
     X = fx.label_data(N, C, nbits, seed)
-    paths = fx.make_fileset(wd, X, nbits, shard["lengths"], fch1=1500.0, foff=-100.0, tsamp=1e-3)
+    if "scale" in shard and nbits >= 8:
+        # values below 100: float32 sums over 70 001 samples stay exact (the quantifier asks for exact sums)
+        X = (fx.label_data(N, C, 8, seed).astype(np.int64) % 100).astype(np.uint8 if nbits == 8 else np.float32)
+    fch1, foff = shard.get("band", (1500.0, -100.0))
+    paths = fx.make_fileset(wd, X, nbits, shard["lengths"], fch1=fch1, foff=foff, tsamp=1e-3)
     return X, paths, FilReader(paths)
 
 
@@ -76,7 +90,7 @@ def run_shard(shard: dict, ctx, res, only=None) -> None:
     X, paths, fil = _open(wd, shard, ctx.seed)
     N, C = shard["N"], shard["nchans"]
     start = shard["start"]
-    gulps = [*range(1, N + 2), 10 * N]
+    gulps = shard.get("gulps") or [*range(1, N + 2), 10 * N]
     delays = {}
     for dm in shard["dms"]:
         d = np.asarray(fil.header.get_dmdelays(dm)).astype(int)
@@ -89,6 +103,10 @@ def run_shard(shard: dict, ctx, res, only=None) -> None:
         ranges.append((None, None))  # API defaults
     elif start == 1:
         ranges.append((start, None))
+    if "scale" in shard:
+        ranges = [tuple(r) for r in shard["ranges"]]
+        apis = {"reduce": ["collapse", "bandpass", "read_chan:0", f"read_chan:{C - 1}", "read_chan:17"],
+                "dedisperse": [f"dedisperse:{dm}" for dm in delays], "stats": ["stats", "stats_basic"]}[shard["scale"]]
     for st, ns in ranges:
         s_eff = 0 if st is None else st
         n_eff = (N - s_eff) if ns is None else ns
@@ -124,6 +142,8 @@ def run_shard(shard: dict, ctx, res, only=None) -> None:
                     multi = multi or md > 0
                 if multi or n_eff < N:
                     res.nontrivial += 1
+                if "scale" in shard:
+                    res.outcome("scale_lane/ok")
                 if name in ("stats", "stats_basic"):
                     continue
                 if first is None:
@@ -212,6 +232,12 @@ def _compare(api, got, ref, n_eff, res, case) -> bool:
                       f"count {cnt.tolist()} want {n}; min {gmn.tolist()} want {mn.tolist()}; max {gmx.tolist()} want {mx.tolist()}")
         return False
     tol = 50 * EPS32 * max(n, 1)
+    abs_hi = 1e-3
+    if n > 4096:
+        # scale lane: the kernels carry float64 running sums inside a block and round to float32 once per block; observed deviation is
+        # about 2 eps32 over seeds and gulps, the limit below leaves two orders of magnitude (the n-proportional bound would be vacuous here)
+        tol = 256 * EPS32
+        abs_hi = 1e-4
     scale = np.maximum(np.abs(mx), 1.0)
     dev_m = np.max(np.abs(gm - m) / scale)
     dev_v = np.max(np.abs(gv - v) / np.maximum(v, scale**2 * 1e-6)) if n > 1 else np.max(np.abs(gv))
@@ -225,8 +251,8 @@ def _compare(api, got, ref, n_eff, res, case) -> bool:
         gsk, gku = got[5], got[6]
         dsk = np.max(np.abs(gsk - sk))
         dku = np.max(np.abs(gku - ku))
-        lim_s = 1e-3 + tol * np.max(np.abs(sk) + 1)
-        lim_k = 1e-3 + tol * np.max(np.abs(ku) + 3)
+        lim_s = abs_hi + tol * np.max(np.abs(sk) + 1)
+        lim_k = abs_hi + tol * np.max(np.abs(ku) + 3)
         res.maximum("stats_skew_dev_over_tol", dsk / lim_s)
         res.maximum("stats_kurt_dev_over_tol", dku / lim_k)
         if not (np.all(np.isfinite(gsk)) and np.all(np.isfinite(gku))) or dsk > lim_s or dku > lim_k:
